@@ -2,7 +2,9 @@
 
 Driven (real, tree under test): `Session.get` (-> `_get_impl` / `loading.get_from_identity`), `Session.scalars(select(...))`
 with and without `populate_existing` / `yield_per` (-> `loading._instance_processor` lookup-before-create),
-`Session.add` of a detached object (-> `_WeakInstanceDict.add`), `expunge`, `merge`, `refresh`, `expire`, `delete`, a
+the same loads with an explicit identity token (`Session.get(P, pk, identity_token=T)`, `select(P).execution_options(identity_token=T)`,
+T in {"east", "west"}; an identity key is (class, primary key, identity_token), so one row loaded under two tokens is two identities that
+live side by side in one Session — the mechanism horizontal sharding is built on), `Session.add` of a detached object (-> `_WeakInstanceDict.add`), `expunge`, `merge`, `refresh`, `expire`, `delete`, a
 primary-key change + flush (-> `_WeakInstanceDict.replace / safe_discard`), `commit`, `rollback`, dropping references +
 `gc.collect()`; shared harness class P on SQLite :memory: with two rows.
 
@@ -13,8 +15,10 @@ Contract clauses, evaluated after EVERY operation of every history (C/D/E as `en
      identity_map[key]
   C  every object returned by a query / get / merge / refresh is identity_map[its key]; two loads of one row return the same object
      while the first is still attached and alive
-  D  `Session.get(P, pk)` when identity_map holds a live, attached, un-expired object under that key: returns that object and emits
-     zero SQL statements (counted with a before_cursor_execute listener)
+  D  `Session.get(P, pk[, identity_token=T])` (T = None when not given) when identity_map holds a live, attached, un-expired object under
+     the key (P, (pk,), T): returns that object and emits zero SQL statements (counted with a before_cursor_execute listener)
+  T  the object returned by `Session.get(P, pk[, identity_token=T])` — from the map or freshly loaded — has exactly the identity key
+     (P, (pk,), T), never the key of another token; every object returned by a select executed with identity_token=T carries token T
   E  `Session.add(detached o)`: raises InvalidRequestError  <=>  identity_map holds a DIFFERENT live object under o's key; when it
      raises the map is unchanged; otherwise identity_map[key] is o afterwards
   X  an operation raises only sqlalchemy.exc.SQLAlchemyError subclasses (the session is then rolled back and the history continues)
@@ -27,8 +31,12 @@ import weakref
 from rtc import ormharness as H
 
 FN = "orm/identity.py::_WeakInstanceDict+Session"
-OPS = ["query", "query_yield", "populate", "get1", "get2", "expunge1", "readd1", "modify1", "pk1to3", "flush", "commit", "rollback",
-       "merge1", "merge_detached1", "refresh1", "expire1", "delete1", "dropref_gc", "new4"]
+BASE_OPS = ["query", "query_yield", "populate", "get1", "get2", "expunge1", "readd1", "modify1", "pk1to3", "flush", "commit", "rollback",
+            "merge1", "merge_detached1", "refresh1", "expire1", "delete1", "dropref_gc", "new4"]
+TOKENS = ["east", "west"]
+# identity-token variants of the loads: <op>_<token>.  Appended, so that range(len(BASE_OPS)) is the token-less catalogue.
+TOKEN_OPS = [f"{op}_{t}" for op in ("get1", "get2", "query") for t in TOKENS]
+OPS = BASE_OPS + TOKEN_OPS
 QUICK_L4_FIRST = ["delete1", "pk1to3", "expunge1", "modify1"]
 _G = dict(engine=None)
 
@@ -39,9 +47,20 @@ def reset_db(engine):
         c.exec_driver_sql("insert into p (id, x) values (1, 10), (2, 20)")
 
 
-def _key(m, pk):
+def _key(m, pk, token=None):
     from sqlalchemy import inspect
-    return inspect(m.P).identity_key_from_primary_key((pk,))
+    return inspect(m.P).identity_key_from_primary_key((pk,), identity_token=token)
+
+
+def _kd(key):
+    """an identity key in messages: the primary key, '@token' appended when the key has one"""
+    return f"{key[1]}" if key[2] is None else f"{key[1]}@{key[2]}"
+
+
+def _split(name):
+    """'get1_east' -> ('get1', 'east') ; 'get1' -> ('get1', None)"""
+    base, _, tok = name.partition("_")
+    return (base, tok) if tok in TOKENS else (name, None)
 
 
 class Hist:
@@ -53,11 +72,11 @@ class Hist:
         self.held = {}                    # role -> object the application holds
         self.seen = weakref.WeakSet()     # every object the harness was ever handed
         self.fails = []
-        self.stats = dict(get_nosql=0, loads=0, add_conflict=0, raised=0)
+        self.stats = dict(get_nosql=0, get_nosql_token=0, loads=0, add_conflict=0, raised=0)
 
     # ---- clauses
-    def handed(self, objs, what):
-        """clause C for objects returned by a load"""
+    def handed(self, objs, what, token=False):
+        """clause C for objects returned by a load (token: the identity token the load was made with, False = not a token-aware load)"""
         from sqlalchemy import inspect
         s = self.s
         for o in objs:
@@ -66,13 +85,15 @@ class Hist:
             st = inspect(o)
             if st.key is None or st.session is not s:
                 continue
+            if token is not False and st.key[2] != token:
+                self.fails.append(f"T: {what} (identity_token={token!r}) returned an object whose identity key is {_kd(st.key)}")
             if s.identity_map.get(st.key) is not o and not st.deleted:
-                self.fails.append(f"C: {what} returned an object for key {st.key[1]} that is not identity_map[key]")
+                self.fails.append(f"C: {what} returned an object for key {_kd(st.key)} that is not identity_map[key]")
             for p in list(self.seen):
                 if p is not o:
                     sp = inspect(p)
                     if sp.key == st.key and sp.session is s and sp.persistent and st.persistent:
-                        self.fails.append(f"C: {what} returned a second object for key {st.key[1]} while another one is attached and alive")
+                        self.fails.append(f"C: {what} returned a second object for key {_kd(st.key)} while another one is attached and alive")
             self.seen.add(o)
 
     def invariants(self):
@@ -81,9 +102,9 @@ class Hist:
         for k, o in list(s.identity_map.items()):
             st = inspect(o)
             if st.key != k:
-                self.fails.append(f"A: identity_map key {k[1]} holds an object whose key is {st.key and st.key[1]}")
+                self.fails.append(f"A: identity_map key {_kd(k)} holds an object whose key is {st.key and _kd(st.key)}")
             if st.session is not s:
-                self.fails.append(f"A: identity_map key {k[1]} holds an object not attached to this session")
+                self.fails.append(f"A: identity_map key {_kd(k)} holds an object not attached to this session")
         bykey = {}
         for o in list(self.seen):
             st = inspect(o)
@@ -91,10 +112,10 @@ class Hist:
                 bykey.setdefault(st.key, []).append(o)
         for k, objs in bykey.items():
             if len(objs) > 1:
-                self.fails.append(f"B: {len(objs)} live objects attached to the session share identity key {k[1]}")
+                self.fails.append(f"B: {len(objs)} live objects attached to the session share identity key {_kd(k)}")
             for o in objs:
                 if s.identity_map.get(k) is not o:
-                    self.fails.append(f"B: a persistent attached object with key {k[1]} is not identity_map[key]")
+                    self.fails.append(f"B: a persistent attached object with key {_kd(k)} is not identity_map[key]")
 
     # ---- operations (each in its own frame)
     def op(self, name):
@@ -104,36 +125,46 @@ class Hist:
         m, s, held = self.m, self.s, self.held
         P = m.P
         o1 = held.get(1)
+        name, token = _split(name)
+        what = name if token is None else f"{name}[{token}]"
         if name in ("query", "query_yield", "populate"):
             stmt = select(P).order_by(P.id)
+            if token is not None:
+                stmt = stmt.execution_options(identity_token=token)
             if name == "query_yield":
                 stmt = stmt.execution_options(yield_per=1)
             if name == "populate":
                 stmt = stmt.execution_options(populate_existing=True)
             rows = s.scalars(stmt).all()
             self.stats["loads"] += 1
-            self.handed(rows, name)
+            self.handed(rows, what, token)
             for r in rows:
                 pk = inspect(r).key[1][0]
-                if held.setdefault(pk, r) is not r:
-                    held[f"{pk}b"] = r          # the application also keeps the second object it was handed for this row
+                role = pk if token is None else f"{pk}@{token}"
+                if held.setdefault(role, r) is not r:
+                    held[f"{role}b"] = r          # the application also keeps the second object it was handed for this identity
         elif name in ("get1", "get2"):
             pk = 1 if name == "get1" else 2
-            k = _key(m, pk)
+            k = _key(m, pk, token)
+            call = f"get({pk})" if token is None else f"get({pk}, identity_token={token!r})"
             cur = s.identity_map.get(k)
             present = cur is not None and not inspect(cur).expired and inspect(cur).session is s
             before = self.e.sqlcount[0]
-            r = s.get(P, pk)
+            r = s.get(P, pk) if token is None else s.get(P, pk, identity_token=token)
             if present:
                 if r is not cur:
-                    self.fails.append(f"D: get({pk}) did not return the identity-map object that was present and un-expired")
+                    other = "" if r is None or inspect(r).key in (None, k) else f" (returned the object of identity key {_kd(inspect(r).key)})"
+                    self.fails.append(f"D: {call} did not return the identity-map object that was present and un-expired{other}")
                 if self.e.sqlcount[0] != before:
-                    self.fails.append(f"D: get({pk}) emitted {self.e.sqlcount[0] - before} SQL statement(s) although the object was present and un-expired")
+                    self.fails.append(f"D: {call} emitted {self.e.sqlcount[0] - before} SQL statement(s) although the object was present and un-expired")
                 else:
                     self.stats["get_nosql"] += 1
-            self.handed([r], name)
-            if r is not None and held.setdefault(pk, r) is not r:
-                held[f"{pk}b"] = r
+                    if token is not None:
+                        self.stats["get_nosql_token"] += 1
+            self.handed([r], what, token)
+            role = pk if token is None else f"{pk}@{token}"
+            if r is not None and held.setdefault(role, r) is not r:
+                held[f"{role}b"] = r
         elif name == "expunge1":
             if o1 is not None and o1 in s:
                 s.expunge(o1)
@@ -240,18 +271,21 @@ def _worker(job):
         run_history(["query", "flush"])
         gc.collect()
         gc.freeze()
-    res = dict(evaluations=0, nontrivial=0, failures=[], samples=[], skipped_prefix_already_broken=0, get_without_sql=0, add_conflicts=0, operations_raising_documented_errors=0)
-    for idxs in H.job_sequences(len(OPS), job):
+    res = dict(evaluations=0, nontrivial=0, failures=[], samples=[], skipped_prefix_already_broken=0, get_without_sql=0, get_with_token_without_sql=0, add_conflicts=0,
+               operations_raising_documented_errors=0, histories_with_identity_tokens=0)
+    for idxs in H.job_sequences(job.get("n_ops", len(OPS)), job):
         names = [OPS[k] for k in idxs]
         r = run_history(names)
         res["evaluations"] += 1
         st = r["stats"]
         res["get_without_sql"] += st["get_nosql"]
+        res["get_with_token_without_sql"] += st["get_nosql_token"]
+        res["histories_with_identity_tokens"] += any(n in TOKEN_OPS for n in names)
         res["add_conflicts"] += st["add_conflict"]
         res["operations_raising_documented_errors"] += st["raised"]
         if st["get_nosql"] or st["add_conflict"] or st["loads"]:
             res["nontrivial"] += 1
-            if (st["add_conflict"] and len(res["samples"]) < 2) or (not res["samples"] and st["get_nosql"] and len(names) == job["length"]):
+            if (st["add_conflict"] and len(res["samples"]) < 2) or (not res["samples"] and st["get_nosql"] and len(names) == job["length"]) or (st["get_nosql_token"] and len(res["samples"]) < 3 and len(set(names)) == job["length"] > 2):
                 res["samples"].append(dict(ops=names, get_without_sql=st["get_nosql"], add_conflicts=st["add_conflict"]))
         if r["fails"]:
             if r["failed_at"] == len(names) - 1:
@@ -272,9 +306,10 @@ def bounded(run, tier, seed):
     extra = ""
     if tier == "quick":
         # one level deeper where it pays: histories of length 4 that start by vacating / altering row 1
-        first = [OPS.index(o) for o in QUICK_L4_FIRST]
-        joblist += [j for j in H.jobs(len(OPS), (4,), min_jobs=100) if j["prefix"][0] in first]
-        extra = f" plus ALL histories of length 4 whose first operation is one of {QUICK_L4_FIRST}"
+        # (over the token-less catalogue; the identity-token operations take part in every history of length <= 3, and of length 4 in the thorough tier)
+        first = [BASE_OPS.index(o) for o in QUICK_L4_FIRST]
+        joblist += [j for j in H.jobs(len(BASE_OPS), (4,), min_jobs=100, n_ops=len(BASE_OPS)) if j["prefix"][0] in first]
+        extra = f" plus ALL histories of length 4 over the {len(BASE_OPS)} token-less operations whose first operation is one of {QUICK_L4_FIRST}"
     if seed:
         import random
         random.Random(seed).shuffle(joblist)
@@ -294,14 +329,16 @@ def bounded(run, tier, seed):
             run.violation("idmap-" + "-".join(d["ops"]), dict(function=FN, input=d, expected="clauses A-E, X hold after every operation", actual=d["broken"],
                                                               reason="bounded run-time contract check (C34_bounded)"))
     samples = sorted(agg.get("samples", []), key=lambda x: (-x["add_conflicts"], -len(x["ops"]), x["ops"]))
+    samples = samples[:3] + [x for x in samples[3:] if any(n in TOKEN_OPS for n in x["ops"])][:2]
     blk = dict(
         scope=f"one Session on SQLite :memory:, two rows (+ up to two added), the application starts holding row 1; ALL histories of length in {list(lengths)}{extra} over the "
-              f"{len(OPS)} operations {OPS}; clauses A, B after every operation, C / D / E on every load / get / add",
+              f"{len(OPS)} operations {OPS} (<load>_<token> = the load made with identity_token=<token>); clauses A, B after every operation, C / D / E / T on every load / get / add",
         evaluations=agg["evaluations"], distinct_nontrivial=agg["nontrivial"],
         rule="every history of the scope is enumerated once; non-trivial = the history performed at least one load through the identity map, a get() answered "
              "without SQL, or an add() that hit the conflict branch (counted per history from the harness's own counters)",
-        samples=samples[:4], exhaustive=True, label="bounded (not proof)", contract_failures=len(failures),
-        get_answered_without_sql=agg["get_without_sql"], add_conflicts_raised=agg["add_conflicts"],
+        samples=samples[:5], exhaustive=True, label="bounded (not proof)", contract_failures=len(failures),
+        get_answered_without_sql=agg["get_without_sql"], get_with_identity_token_answered_without_sql=agg["get_with_token_without_sql"],
+        histories_with_identity_token_operations=agg["histories_with_identity_tokens"], add_conflicts_raised=agg["add_conflicts"],
         operations_raising_documented_errors=agg["operations_raising_documented_errors"],
         skipped_prefix_already_broken=agg["skipped_prefix_already_broken"], wall_s=round(time.time() - t0, 1))
     run.coverage.setdefault("bounded", []).append(blk)
